@@ -583,7 +583,7 @@ impl Property for C14 {
         o
     }
     fn nontrivial_floor() -> f64 {
-        0.4
+        0.3
     }
     fn max_shrink_iters() -> u32 {
         1500
